@@ -37,6 +37,9 @@ pub struct Scn {
     pub res: Vec<String>,
     /// enumerate every crash point (true) or only check retrieval without crash
     pub crash: bool,
+    /// short writes and EINTR injected into the writer's write(2) calls (rate per 1000 calls; 0 = none)
+    #[serde(default)]
+    pub io_fault_rate: usize,
     pub ops: Vec<Sec>,
 }
 
@@ -99,11 +102,11 @@ impl Prop for C19 {
         sentinel_core::config::reset_global_config(ConfigEntity::new());
     }
     fn rule_text(&self) -> &'static str {
-        "seeded write histories through the real DefaultMetricLogWriter (1-8 seconds x 1-3 resources with gaps, day changes across a virtual midnight, single-file limits of 150..2000 bytes forcing size roll-over, max file count 1..4 forcing retention). (1) No crash: for every window of written seconds x every resource (and all resources), and from every second with line limits {1,2,3,1000}, both search calls of a fresh and of a reused DefaultMetricSearcher are compared with the lines of the files that still exist. (2) Crash enumeration: the libc-level operation log of the run (every create, unlink and written byte, in program order) is cut at EVERY crash point; each prefix is materialised as a directory and searched: no panic, every item whose line and whose second's index entry are complete is returned in order, every returned item is a completely written line except at most one parsed from the single torn last line. evaluations = histories; the counters report crash states. Non-trivial = history with a roll-over and >= 200 crash states (or, without crash enumeration, >= 2 files); distinct = distinct trace hash."
+        "seeded write histories through the real DefaultMetricLogWriter (1-8 seconds, one history in eight 10-14 seconds with a 1..100-byte limit so that one date gets more than nine files, x 1-3 resources - one history in three with multi-byte resource names - with gaps, day changes across a virtual midnight, single-file limits of 150..2000 bytes forcing size roll-over, max file count 1..4 forcing retention; one history in three with short writes and EINTR injected into the writer's write(2) calls at a rate of 5-50 %). (1) No crash: for every window of written seconds x every resource (and all resources), and from every second with line limits {1,2,3,1000}, both search calls of a fresh and of a reused DefaultMetricSearcher are compared with the lines of the files that still exist. (2) Crash enumeration: the libc-level operation log of the run (every create, unlink and written byte, in program order) is cut at EVERY crash point; each prefix is materialised as a directory and searched: no panic, every item whose line and whose second's index entry are complete is returned in order, every returned item is a completely written line except at most one parsed from the single torn last line. evaluations = histories; the counters report crash states. Non-trivial = history with a roll-over and >= 200 crash states (or, without crash enumeration, >= 2 files); distinct = distinct trace hash."
     }
     fn components(&self) -> Value {
         json!({"real": ["sentinel-core (feature metric_log): DefaultMetricLogWriter (index + log files, roll-over by size and date, retention), DefaultMetricSearcher, DefaultMetricLogReader, MetricItem parsing", "file system: real files under /dev/shm (or /verif/scratch)"],
-               "stub": ["clock (virtual, hook H1: creation time and dates)", "libc write/open/unlink recorders (fsseam): crash = directory synthesised from a prefix of the recorded operation log", "metric aggregator task (never started; items are generated)"]})
+               "stub": ["clock (virtual, hook H1: creation time and dates)", "libc write/open/unlink interposers (fsseam): operation log, injected short writes / EINTR, crash = directory synthesised from a prefix of the recorded operation log (validated against real process deaths by ./check validate-c19)", "metric aggregator task (never started; items are generated)"]})
     }
 
     fn generate(&self, rng: &mut Rng, slot_ns: u64, _avoid: bool) -> Value {
@@ -130,7 +133,7 @@ impl Prop for C19 {
             })
             .collect();
         let max_size = if many { *rng.pick(&[1u64, 100]) } else { *rng.pick(&[150u64, 200, 400, 1000, 2000, 1 << 20]) };
-        serde_json::to_value(Scn { epoch_ns, max_size, max_files: rng.range(1, 4) as usize, res, crash: !rng.chance(1, 4), ops }).unwrap()
+        serde_json::to_value(Scn { epoch_ns, max_size, max_files: rng.range(1, 4) as usize, res, crash: !rng.chance(1, 4), io_fault_rate: if rng.chance(1, 3) { *rng.pick(&[50usize, 200, 500]) } else { 0 }, ops }).unwrap()
     }
 
     fn execute(&self, scenario: &Value, cov: &mut Cov) -> RunResult {
@@ -162,6 +165,11 @@ impl Prop for C19 {
                 c.ops[i].gap = 1;
                 out.push(serde_json::to_value(c).unwrap());
             }
+        }
+        if sc.io_fault_rate > 0 {
+            let mut c = sc.clone();
+            c.io_fault_rate = 0;
+            out.push(serde_json::to_value(c).unwrap());
         }
         if sc.max_files < 4 {
             let mut c = sc.clone();
@@ -420,6 +428,9 @@ fn write_history(sc: &Scn, live: &str, w: &mut World, cov: &mut Cov) -> Result<(
     sentinel_core::config::reset_global_config(cfg);
     let creation_sec = sc.epoch_ns / SEC;
     fsseam::start(live);
+    if sc.io_fault_rate > 0 {
+        fsseam::set_faults(sc.epoch_ns ^ 0x10FA_0175, sc.io_fault_rate);
+    }
     let mut writer = match DefaultMetricLogWriter::new(sc.max_size, sc.max_files) {
         Ok(x) => x,
         Err(e) => return Err(Violation::new("C19/writer-construction-error", 0, e.to_string())),
@@ -462,6 +473,9 @@ fn run(sc: &Scn, root: &str, w: &mut World, tr: &mut Trace, cov: &mut Cov) -> Op
         Err(v) => return Some(v),
     };
     drop(writer);
+    let (short_writes, eintrs) = fsseam::fault_counts();
+    cov.add("short_writes_injected", short_writes as u64);
+    cov.add("eintr_injected", eintrs as u64);
     let log = fsseam::stop();
     let creates = log.iter().filter(|o| matches!(o, FsOp::Create(_))).count();
     let unlinks = log.iter().filter(|o| matches!(o, FsOp::Unlink(_))).count();
